@@ -226,8 +226,10 @@ def function_ast(fn):
 # ---- the interpreter ------------------------------------------------------------------------------
 class Interp:
     def __init__(self, width=64, float_mode='fp64', max_unwind=80, feas_timeout_ms=3000, opaque=None,
-                 intrinsics=None, interpret_classes=(), max_paths=4000, on_function=None):
+                 intrinsics=None, interpret_classes=(), max_paths=4000, on_function=None, ceil_cut=False):
         self.W = width
+        self.ceil_cut = ceil_cut                  # read math.ceil(a / b) on ints as the integer ceiling; instances
+        self.lemmas = []                          # recorded here as (a, b) and justified by an FP lemma of the caller
         self.float_mode = float_mode
         self.max_unwind = max_unwind
         self.feas_timeout_ms = feas_timeout_ms
@@ -273,8 +275,7 @@ class Interp:
         raise HarnessError(f'pyk: expected an int, got {type(v).__name__}')
 
     def add_side(self, cond, what=''):
-        cond = z3.simplify(cond)
-        if z3.is_true(cond):
+        if z3.is_true(z3.simplify(cond)):   # keep the unsimplified term: simplify introduces bvsdiv_i etc.
             return
         if self.guards:
             cond = z3.Implies(z3.And(*self.guards) if len(self.guards) > 1 else self.guards[0], cond)
@@ -300,10 +301,10 @@ class Interp:
         """Decide a symbolic branch; forks the exploration when both sides are feasible."""
         if isinstance(cond, bool):
             return cond
-        cond = z3.simplify(cond)
-        if z3.is_true(cond):
+        sc = z3.simplify(cond)
+        if z3.is_true(sc):
             return True
-        if z3.is_false(cond):
+        if z3.is_false(sc):
             return False
         if self.nofork:
             raise _NeedFork()
@@ -844,6 +845,13 @@ class Interp:
                 return True, self.fp_to_int(v.t, z3.RNE(), 'round(float) range')
             if isinstance(v, SInt):
                 return True, v
+            if isinstance(v, SRat):
+                # round half to even
+                q = self.r_floor(v).t
+                rem2 = self.i_mul(self.i_sub(v.num, self.i_mul(q, None, None, v.den)), None, None, 2)
+                d = self.bv(v.den)
+                up = z3.Or(rem2 > d, z3.And(rem2 == d, (q & self.bv(1)) == self.bv(1)))
+                return True, SInt(z3.If(up, q + self.bv(1), q))
             raise HarnessError('pyk: round() of this value kind')
         if f is print:
             return True, None
@@ -1213,9 +1221,9 @@ class Interp:
             c = self.truth(self.eval(e.test, env, globs))
             if isinstance(c, bool):
                 return self.eval(e.body if c else e.orelse, env, globs)
-            c = z3.simplify(c)
-            if z3.is_true(c) or z3.is_false(c):
-                return self.eval(e.body if z3.is_true(c) else e.orelse, env, globs)
+            sc = z3.simplify(c)
+            if z3.is_true(sc) or z3.is_false(sc):
+                return self.eval(e.body if z3.is_true(sc) else e.orelse, env, globs)
             nside = len(self.side)
             try:
                 self.nofork += 1
@@ -1235,6 +1243,16 @@ class Interp:
                 return self.eval(e.body if self.branch(c) else e.orelse, env, globs)
         if isinstance(e, ast.Call):
             f = self.eval(e.func, env, globs)
+            if self.ceil_cut and f is math.ceil and len(e.args) == 1 and not e.keywords \
+                    and isinstance(e.args[0], ast.BinOp) and isinstance(e.args[0].op, ast.Div):
+                a = self.eval(e.args[0].left, env, globs)
+                b = self.eval(e.args[0].right, env, globs)
+                if all(isinstance(x, (SInt, int)) and not isinstance(x, bool) for x in (a, b)) and (is_sym(a) or is_sym(b)):
+                    self.lemmas.append((a, b))
+                    # ceil(a/b) == -((-a) // b) over the integers
+                    na = self.binop(ast.Sub, 0, a)
+                    return self.binop(ast.Sub, 0, self.binop(ast.FloorDiv, na, b))
+                return self.py_ceil(self.binop(ast.Div, a, b), True)
             args = []
             for a in e.args:
                 if isinstance(a, ast.Starred):
